@@ -100,6 +100,8 @@ def model_verdict(m):
 def meaning_ok(vec, parsed):
     """every flag of the vector is bound: its field in the Debug print of the parsed Cli is neither false, None nor []"""
     bad = []
+    if parsed.startswith("display:"):
+        return bad          # --version / --help: answered by clap itself
     for i, t in enumerate(vec):
         if t.startswith("--") and len(t) > 2:
             name = t[2:].split("=")[0].replace("-", "_")
@@ -177,7 +179,7 @@ def run(R):
     stats = {"builders": {}, "malformed": 0, "malformed_rejected": 0, "known": {}, "meaning_checked": 0}
     seen_flags = set()
     pool = []
-    if len(names) < 18:
+    if len(names) < 20:
         fails.append({"why": f"only {len(names)} builders were translated"})
     for name, count in names:
         stride = max(1, count // 1500) if quick else 1
